@@ -29,6 +29,7 @@ import (
 	"sort"
 	"strings"
 	"sync"
+	"time"
 
 	"golang.org/x/crypto/openpgp"           //nolint
 	"golang.org/x/crypto/openpgp/clearsign" //nolint
@@ -69,18 +70,18 @@ type c17Dl struct {
 }
 
 type c17Case struct {
-	Name        string   `json:"name"` // base name of the archive
-	Archive     []byte   `json:"archive"`
-	Prov        []byte   `json:"prov"`
-	RingSigner  []byte   `json:"ring_signer"`
-	RingOther   []byte   `json:"ring_other"`
-	AltProv     []byte   `json:"alt_prov"`     // same archive, signed by the OTHER key
-	EvilArchive []byte   `json:"evil_archive"` // a different archive of the same name
-	EvilProv    []byte   `json:"evil_prov"`    // its provenance, signed by the OTHER key
+	Name        string `json:"name"` // base name of the archive
+	Archive     []byte `json:"archive"`
+	Prov        []byte `json:"prov"`
+	RingSigner  []byte `json:"ring_signer"`
+	RingOther   []byte `json:"ring_other"`
+	AltProv     []byte `json:"alt_prov"`     // same archive, signed by the OTHER key
+	EvilArchive []byte `json:"evil_archive"` // a different archive of the same name
+	EvilProv    []byte `json:"evil_prov"`    // its provenance, signed by the OTHER key
 	// hand-made messages clear-signed by the TRUSTED key (three parts, odd sums entries, ...)
 	Customs map[string][]byte `json:"customs"`
-	Muts        []c17Mut `json:"muts"`
-	Dls         []c17Dl  `json:"dls"`
+	Muts    []c17Mut          `json:"muts"`
+	Dls     []c17Dl           `json:"dls"`
 }
 
 type c17Tab struct {
@@ -190,6 +191,15 @@ func c17GetKeys() *c17Keys {
 // c17TmpBase prefers a memory file system: DownloadTo writes through fileutil.AtomicWriteFile,
 // which is slow on a disk-backed /tmp
 func c17TmpBase() string {
+	// scratch directories of earlier runs (the runner has no exit hook): drop those older than an hour
+	for _, base := range []string{"/dev/shm", os.TempDir()} {
+		old, _ := filepath.Glob(filepath.Join(base, "hx-c17-*"))
+		for _, d := range old {
+			if fi, err := os.Stat(d); err == nil && time.Since(fi.ModTime()) > time.Hour {
+				os.RemoveAll(d)
+			}
+		}
+	}
 	if fi, err := os.Stat("/dev/shm"); err == nil && fi.IsDir() {
 		if f, err := os.CreateTemp("/dev/shm", "hx-probe-"); err == nil {
 			f.Close()
